@@ -28,6 +28,17 @@ Stores == [
                  A(X("nelec"), "defaulted"), A(X("spinpol"), "defaulted") >>,
   json_qcschema |-> << X("atnums"), R("atcoords", "rel", 14, "au"), R("charge", "abs", 12, "au"), X("spinpol"),
                        A(X("title"), "none"), R("atcorenums", "rel", 14, "au"), R("atmasses", "rel", 14, "au"), X("bonds"), X("g_rot") >>,
+  \* QCSchema input / output documents (the same module, selected by extra.schema_name): everything the documentation lists
+  \* under extra["input"] / extra["output"] is stored verbatim; provenance grows by design and is not compared
+  json_qcschema_input |-> << X("atnums"), R("atcoords", "rel", 14, "au"), R("charge", "abs", 12, "au"), X("spinpol"),
+                       X("lot"), X("obasis_name"), X("extra.input.driver"), X("extra.input.keywords"), X("extra.input.extras"),
+                       X("extra.input.id"), X("extra.input.protocols"), X("extra.molecule.extras") >>,
+  json_qcschema_output |-> << X("atnums"), R("atcoords", "rel", 14, "au"), R("charge", "abs", 12, "au"), X("spinpol"),
+                       X("lot"), X("obasis_name"), X("extra.input.driver"), X("extra.input.keywords"), X("extra.input.extras"),
+                       X("extra.input.id"), X("extra.input.protocols"), X("extra.molecule.extras"),
+                       X("extra.output.properties"), X("extra.output.return_result"), X("extra.output.success"),
+                       X("extra.output.stdout"), X("extra.output.stderr"), X("extra.output.error"),
+                       R("energy", "rel", 14, "au") >>,
   fchk |-> << X("atnums"), R("atcoords", "rel", 8, "au"), R("atcorenums", "rel", 8, "au"), A(X("title"), "defaulted"),
               R("energy", "rel", 8, "au"), Nm(X("lot"), "casefold"), Nm(X("obasis_name"), "casefold"), R("atmasses", "rel", 8, "au"), X("atfrozen"),
               R("atgradient", "rel", 8, "au"), R("athessian", "rel", 8, "au"),
